@@ -12,6 +12,7 @@ import (
 // calleeInfo describes what is being called and which contract applies.
 type calleeInfo struct {
 	name     string // display / ordinal name
+	inline   *ssa.Function // module function without a contract: translated in place
 	decl     *Decl
 	sig      *types.Signature
 	recvType types.Type // for methods / invokes
@@ -52,7 +53,12 @@ func (vc *VC) call(x *ssa.Call) {
 		args = append(args, vc.val(a))
 		argTypes = append(argTypes, a.Type())
 	}
-	res := vc.applyContract(info, args, argTypes, x.Pos())
+	var res []Term
+	if info.inline != nil {
+		res = vc.inlineCall(x, info.inline, args)
+	} else {
+		res = vc.applyContract(info, args, argTypes, x.Pos())
+	}
 	sigRes := c.Signature().Results()
 	switch sigRes.Len() {
 	case 0:
@@ -144,7 +150,15 @@ func (vc *VC) resolveCallee(c *ssa.CallCommon) *calleeInfo {
 		info.name = funcKey(fn)
 		info.decl = env.funcC[info.name]
 		if info.decl == nil {
-			panic(unsupported("call to " + info.name + ", which has no contract"))
+			if _, static := c.Value.(*ssa.Function); static && fn.Origin() == nil && vc.inlinable(fn) == "" {
+				info.inline = fn
+				return info
+			}
+			why := "a call through a closure or an instantiated generic"
+			if _, static := c.Value.(*ssa.Function); static && fn.Origin() == nil {
+				why = vc.inlinable(fn)
+			}
+			panic(unsupported("call to " + info.name + ", which has no contract and cannot be inlined (" + why + ")"))
 		}
 		return info
 	}
@@ -819,7 +833,7 @@ func (vc *VC) applyLoopFrame(li *loopInfo, pre *State, comps []string) {
 		cur := vc.cur.comps[c]
 		old := vc.comp(base, c, s)
 		single := !strings.HasPrefix(s, "(Array Int ")
-		conds := []Term{app("<", rootOf("r"), baseNext)}
+		conds := []Term{app("<", "0", rootOf("r")), app("<", rootOf("r"), baseNext)}
 		for _, a := range allowed[c] {
 			conds = append(conds, not(eq("r", a)))
 		}
@@ -840,4 +854,125 @@ func (vc *VC) applyLoopFrame(li *loopInfo, pre *State, comps []string) {
 		}
 		vc.assume(fmt.Sprintf("(forall ((r Int)) (! %s :pattern ((select %s r))))", implies(and(conds...), eq(app("select", cur, "r"), app("select", old, "r"))), cur))
 	}
+}
+
+// ---- inlining of module functions that have no contract --------------------------------------------
+//
+// A helper without a contract (for instance one extracted by a refactoring) is verified as part of
+// each caller under contract: its body is translated in place, on the caller's state and path. Only
+// loop-free, non-recursive functions without defer are inlined, to a depth of 3; anything else is
+// outside the subset (the caller's obligations are then undecided and reported as #binding).
+
+type inlineFrame struct {
+	fn       *ssa.Function
+	prefix   string
+	retReach []Term
+	retState []*State
+	retVals  [][]Term
+}
+
+func (vc *VC) inlinable(fn *ssa.Function) string {
+	if len(fn.Blocks) == 0 {
+		return "no body"
+	}
+	if fn.Recover != nil {
+		return "defer / recover"
+	}
+	if len(vc.inl) >= 3 {
+		return "inlining depth exceeded"
+	}
+	if fn == vc.fn {
+		return "recursive"
+	}
+	for _, f := range vc.inl {
+		if f.fn == fn {
+			return "recursive"
+		}
+	}
+	for _, b := range fn.Blocks {
+		for _, s := range b.Succs {
+			if isBackEdge(b, s) {
+				return "it has a loop, which needs an invariant"
+			}
+		}
+		for _, in := range b.Instrs {
+			switch in.(type) {
+			case *ssa.Defer, *ssa.Go, *ssa.MakeClosure:
+				return "defer, go or a closure in its body"
+			}
+		}
+	}
+	return ""
+}
+
+func (vc *VC) inlineCall(x *ssa.Call, fn *ssa.Function, args []Term) []Term {
+	type saved struct {
+		fn        *ssa.Function
+		reach     map[*ssa.BasicBlock]Term
+		exit      map[*ssa.BasicBlock]*State
+		edgeCond  map[[2]int]Term
+		curBlock  *ssa.BasicBlock
+		reachable map[[2]int]bool
+		safeSeen  map[string][]*ssa.BasicBlock
+		callCount map[string]int
+		counters  map[string]int
+		loops     []*loopInfo
+		loopAt    map[*ssa.BasicBlock]*loopInfo
+		curReach  Term
+	}
+	sv := saved{vc.fn, vc.reach, vc.exit, vc.edgeCond, vc.curBlock, vc.reachable, vc.safeSeen, vc.callCount, vc.counters, vc.loops, vc.loopAt, vc.curReach}
+	if len(vc.inl) == 0 {
+		vc.inlBlock = vc.curBlock
+	}
+	k := sv.callCount["inline:"+fn.Name()]
+	sv.callCount["inline:"+fn.Name()]++
+	prefix := fmt.Sprintf("in %s#%d:", fn.Name(), k)
+	if len(vc.inl) > 0 {
+		prefix = vc.inl[len(vc.inl)-1].prefix + prefix
+	}
+	fr := &inlineFrame{fn: fn, prefix: prefix}
+	vc.inl = append(vc.inl, fr)
+	vc.assumes["the body of "+funcKey(fn)+" (no contract) is verified inlined into its callers"] = true
+	vc.fn = fn
+	vc.reach = map[*ssa.BasicBlock]Term{}
+	vc.exit = map[*ssa.BasicBlock]*State{}
+	vc.edgeCond = map[[2]int]Term{}
+	vc.safeSeen = nil
+	vc.callCount = map[string]int{}
+	vc.counters = map[string]int{}
+	vc.loops = nil
+	vc.loopAt = map[*ssa.BasicBlock]*loopInfo{}
+	for i, p := range fn.Params {
+		vc.vals[p] = args[i]
+	}
+	vc.computeReachability()
+	for _, b := range vc.topoOrder() {
+		vc.block(b)
+	}
+	vc.inl = vc.inl[:len(vc.inl)-1]
+	vc.fn, vc.reach, vc.exit, vc.edgeCond, vc.curBlock, vc.reachable, vc.safeSeen, vc.callCount, vc.counters, vc.loops, vc.loopAt, vc.curReach =
+		sv.fn, sv.reach, sv.exit, sv.edgeCond, sv.curBlock, sv.reachable, sv.safeSeen, sv.callCount, sv.counters, sv.loops, sv.loopAt, sv.curReach
+	if len(fr.retReach) == 0 {
+		panic(unsupported("call to " + funcKey(fn) + ", which has no contract and never returns"))
+	}
+	// the callee returns on exactly one of its return paths (a path that panics carries a safe:panic obligation)
+	var edges []Term
+	for _, r := range fr.retReach {
+		edges = append(edges, vc.define("inl.ret", sBool, r))
+	}
+	if len(edges) == 1 {
+		vc.cur = fr.retState[0].clone()
+		return fr.retVals[0]
+	}
+	vc.cur = vc.mergeStates(edges, fr.retState)
+	res := fn.Signature.Results()
+	out := make([]Term, res.Len())
+	for i := range out {
+		var ts []Term
+		for _, rv := range fr.retVals {
+			ts = append(ts, rv[i])
+		}
+		out[i] = vc.mergeTerms("inl."+fn.Name()+".r", vc.reg.sortOf(res.At(i).Type()), edges, ts)
+	}
+	return out
 }
